@@ -319,6 +319,32 @@ class RuleTable:
                 if tgt is None and not isinstance(vexpr, (ast.Call, ast.Subscript, ast.Lambda)):
                     self.undecided.append((m, c, f"setattr target for {name.value} unresolved"))
 
+    def _expand_starred(self, m, v, env):
+        """*(<elt> for x in range(3)) / *[<elt> for x in (a, b)] / *(a, b): the makers, with the loop variable
+        substituted; None when the sequence is not a literal"""
+        v = subst(v, env)
+        if isinstance(v, _Foreign):
+            return None
+        if isinstance(v, (ast.Tuple, ast.List)):
+            return None if any(isinstance(e, ast.Starred) for e in v.elts) else list(v.elts)
+        if isinstance(v, (ast.GeneratorExp, ast.ListComp)) and len(v.generators) == 1 and not v.generators[0].ifs and isinstance(v.generators[0].target, ast.Name):
+            g = v.generators[0]
+            it = g.iter
+            elts = None
+            if isinstance(it, ast.Call) and isinstance(it.func, ast.Name) and it.func.id == "range" and not it.keywords and 1 <= len(it.args) <= 3 and all(isinstance(a, ast.Constant) and type(a.value) is int for a in it.args):
+                elts = [ast.Constant(value=k) for k in range(*[a.value for a in it.args])]
+            else:
+                elts = self._literal_elts(m, it, env)
+            if elts is None or len(elts) > 32:
+                return None
+            out = []
+            for e in elts:
+                env2 = dict(env)
+                env2[g.target.id] = e
+                out.append(subst(v.elt, env2))
+            return out
+        return None
+
     def _reg(self, m, c, env, mode, api):
         if not c.args:
             self.undecided.append((m, c, "registration without primitive"))
@@ -354,10 +380,16 @@ class RuleTable:
             elif kw.arg is None:
                 self.undecided.append((m, c, "**kwargs in registration"))
                 return
-        makers = c.args[1:]
-        if any(isinstance(a, ast.Starred) for a in makers):
-            self.undecided.append((m, c, "starred makers"))
-            return
+        makers = []
+        for a in c.args[1:]:
+            if isinstance(a, ast.Starred):
+                ex = self._expand_starred(m, a.value, env)
+                if ex is None:
+                    self.undecided.append((m, c, "starred makers"))
+                    return
+                makers.extend(ex)
+            else:
+                makers.append(a)
         if argnums is None:
             argnums = list(range(len(makers)))
         self._arity_note = None
